@@ -289,6 +289,17 @@ def d3_checker(ctx, cls, appenders):
                f'{chk.qualname} does not change the rank of its input (only ndmin=1 for bare numbers)',
                detail=f'`{norm(bad[0])[:50]}` promotes a chunk of the wrong rank instead of rejecting it: the caller\'s '
                       f'own length bookkeeping (len of the raw item) then disagrees with the rows written' if bad else '')
+    # every normal path converts (no shortcut that returns the input as it is)
+    param = [p for p in chk.params if p != 'self'][0]
+    cfg = cfg_of(chk)
+    cv = [n for n in own_nodes(chk.node) if isinstance(n, ast.Assign) and isinstance(n.value, ast.Call)
+          and dotted(n.value.func) in ('np.asarray', 'np.array') and norm(n.targets[0]) == param]
+    nodes = {cfg.node_for(n) for n in cv}
+    ok = bool(cv) and not cfg.can_reach(cfg.entry, cfg.exit, avoid=nodes, skip_labels=('exc',))
+    ctx.decide(ok, 'R-DOM', 'D3', chk, cv[0] if cv else None, 'always-converts',
+               f'{chk.qualname}: every normal path converts the input with the array\'s dtype (byte order included)',
+               detail='a path returns the input without conversion (e.g. a shortcut on dtype.name, which ignores '
+                      'byte order): raw bytes of the wrong byte order / type are appended')
     # both branches construct with the array's dtype
     convs = [n for n in own_nodes(chk.node) if isinstance(n, ast.Call) and dotted(n.func) in ('np.asarray', 'np.array')]
     ok = bool(convs) and all(norm(get_arg(n, 1, 'dtype') or ast.Constant(None)) in ('self._dtype', 'self.dtype') for n in convs)
